@@ -34,6 +34,8 @@ f_ctime (void)
   time_t t = (time_t)sp->u.number;
 
   cp = ctime (&t);
+  if (!cp) /* year does not fit in struct tm */
+    error ("Bad time value %lld passed to ctime()\n", (long long)sp->u.number);
   if ((nl = strchr (cp, '\n')))
     len = nl - cp;
   else
